@@ -1,26 +1,2 @@
--- GENERATED by /verif/gen/s4gen.py (gen_stream.py) from src/readers/{blockreader,syslogprocessor,syslinereader,linereader,filedecompressor}.rs — do not edit
-namespace S4V.Gen.Stream
-
-/-- `read_block_FileGz`: size of the intermediate buffer of the fill loop -/
-def GZ_BUF_SZ : Nat := 2056
-/-- `read_block_FileBz2` calls `read` until the block is full -/
-def BZ2_FILL_LOOP : Bool := true
-/-- `read_block_FileLz4`: `true` iff `read` is called until the block is full; as coded the
-block is `resize`d to its expected length and `read` is called ONCE (the returned size is only counted) -/
-def LZ4_FILL_LOOP : Bool := false
-/-- `BlockReader::new`: buffer of the bz2 / lz4 pre-pass that learns the decompressed size -/
-def PREPASS_BUF_SZ : Nat := 32786
-/-- `BlockReader::new` (xz): the split loop runs `while blockoffset <= len / blocksz` (inclusive) -/
-def XZ_SPLIT_INCLUSIVE : Bool := true
-/-- `SyslogProcessor::drop_data_try`: `if bo_first > GUARD { drop_data(bo_first - BACK) }` -/
-def DROP_TRY_GUARD : Nat := 1
-def DROP_TRY_BACK : Nat := 2
-/-- `SyslineReader::drop_sysline` removes the entry from `syslines` before `Arc::try_unwrap`;
-when the unwrap fails the lines of that message are not dropped and nothing refers to them again -/
-def SYSLINE_REMOVED_BEFORE_UNWRAP : Bool := true
-/-- `LineReader::drop_line` drops the blocks of all parts except the last `LINE_DROP_KEEP_PARTS` -/
-def LINE_DROP_KEEP_PARTS : Nat := 1
-/-- `decompress_to_ntf`: buffer of the copy loops -/
-def NTF_BUF_SZ : Nat := 65536
-
-end S4V.Gen.Stream
+-- GENERATION FAILED: read_block_FileLz4: neither the single-read nor the fill-loop shape
+#eval (show Nat from "translator failed: item left the subset")
